@@ -11,6 +11,7 @@ use std::io::Write;
 pub struct Trace {
     w: std::io::BufWriter<Box<dyn Write + Send>>,
     pub n: usize,
+    last_limit: bool,
 }
 
 impl Trace {
@@ -23,9 +24,15 @@ impl Trace {
         Trace {
             w: std::io::BufWriter::with_capacity(1 << 20, f),
             n: 0,
+            last_limit: false,
         }
     }
+    /// was the last event a `Limit` event of one of the two compared engines (split driver)?
+    pub fn last_was_limit(&self) -> bool {
+        self.last_limit
+    }
     pub fn ev(&mut self, v: Value) {
+        self.last_limit = v["ev"] == "Limit" && v["e"] != 2;
         serde_json::to_writer(&mut self.w, &v).unwrap();
         self.w.write_all(b"\n").unwrap();
         self.n += 1;
@@ -77,7 +84,7 @@ pub fn err_class(msg: &str) -> String {
         "stopped"
     } else if m.contains("doesn't satisfy the grammar") {
         "reject"
-    } else if m.contains("too complex") || m.contains("too many") || m.contains("fuel") {
+    } else if m.contains("too complex") || m.contains("too many") || m.contains("fuel") || m.contains("; max is") || m.contains("limit") {
         "limit"
     } else {
         "other"
